@@ -1044,3 +1044,20 @@ GROUPS["g29"] += [
       "        if let Ok(n) = s.parse::<f64>() {",
       "R-C19-finite:lex_number:finite-value"),
 ]
+
+GROUPS["g29"] += [
+    # F30: the statsPath key feeds the file-dictionary directory again
+    E("c10-statspath-wrong-field", ["C10"], "harper-ls/src/config.rs",
+      "                base.stats_path = path.try_resolve()?.to_path_buf();",
+      "                base.file_dict_path = path.try_resolve()?.to_path_buf();",
+      "R-C10-files:config-key:statsPath"),
+]
+
+# C10 config-key: the same table written through a helper closure (key literal is an argument, the store is not
+# inside an `if let Some(..) = value.get(..)` block) must stay proved.
+GROUPS["p18"] = [
+    E("p-c10-statspath-helper", ["C10"], "harper-ls/src/config.rs",
+      '        if let Some(v) = value.get("statsPath") {\n            if let Value::String(path) = v {\n                base.stats_path = path.try_resolve()?.to_path_buf();\n            } else {\n                bail!("fileDict path must be a string.");\n            }\n        }\n',
+      '        let read_path = |key: &str| -> Result<Option<PathBuf>> {\n            match value.get(key) {\n                None => Ok(None),\n                Some(Value::String(path)) => Ok(Some(path.try_resolve()?.to_path_buf())),\n                Some(_) => bail!("a path must be a string."),\n            }\n        };\n        if let Some(path) = read_path("statsPath")? {\n            base.stats_path = path;\n        }\n',
+      None),
+]
